@@ -40,6 +40,9 @@ class _Obj:
     def __init__(self, **kw):
         self.__dict__.update(kw)
 
+    def __repr__(self):
+        return "Obj(" + ", ".join(f"{k}={v!r}" for k, v in self.__dict__.items()) + ")"
+
 
 def _recording_format_error():
     """context: ErrorHandler.format_error also records the internal kind and the char_index it was asked to print (ghost views)"""
